@@ -2,7 +2,7 @@
 import ast
 from vstatic import terms as T
 from vstatic.terms import sym, Term, Atom, lift, pretty
-from .common import agree_ref, selfattr
+from .common import agree_ref, selfattr, inline_locals, new_helpers_of
 
 FR = 'frame.Frame.'
 DS = 'voltage.data_stream.'
@@ -212,6 +212,23 @@ def run(ctx):
         va, vb = any_generator(va), any_generator(vb)
         ctx.formula('FORMULA', 'noise source == v_mean + v_std * <generator>.standard_normal(len(ts))', dsa, va, vb,
                     node=a[-1].node, construct='noise_func')
+    # quadrature addition presupposes INDEPENDENT sources: a further source's generator must be seeded with fresh numbers drawn
+    # from the stream's generator (or spawned from its seed sequence) -- re-creating a generator from the same seed material
+    # (the seed itself, bit_generator.seed_seq, a copy of the state) replays the first source's numbers
+    gens = []
+    for owner in [dsa] + list(new_helpers_of(ctx, dsa)):
+        for n in ast.walk(owner.node):
+            if isinstance(n, ast.Call) and isinstance(n.func, ast.Attribute) and n.func.attr in ('default_rng', 'Generator', 'deepcopy', 'copy'):
+                gens.append((owner, n))
+    for owner, n in gens:
+        arg = inline_locals(owner.node, n.args[0]) if n.args else None
+        src = ast.unparse(arg) if arg is not None else ''
+        ok = ('.integers(' in src or '.spawn(' in src) and 'seed_seq)' not in src.replace(' ', '')
+        if n.func.attr in ('deepcopy', 'copy'):
+            ok = 'rng' not in src and 'bit_generator' not in src
+        ctx.ob('RNG', 'each further noise source of a stream draws from a generator seeded with numbers DRAWN from the stream\'s '
+               'generator (independent sources: deviations add in quadrature)', owner, ok, {'construction': ast.unparse(n)[:120]},
+               node=n, construct=ast.unparse(n)[:80])
     tn = ctx.func(DS + 'DataStream.get_total_noise_std')
     r, I = ctx.run(tn)
     ctx.formula('FORMULA', 'total noise == sqrt(noise_std^2 + bg_noise_std^2)', tn, r.ret,
